@@ -140,7 +140,7 @@ var primWidth = map[string]int64{"ToInt8": 1, "ToInt16": 2, "ToInt32": 4, "ToInt
 // decodeWidthsAgree: every io.ToXxx(buf[lo:lo+K]) in s decodes exactly K bytes.
 func (c *Ctx) decodeWidthsAgree(rule string, s *Scope) int {
 	n := 0
-	walkAll(s.Body, func(m ast.Node) bool {
+	s.walk(func(m ast.Node) bool {
 		call, ok := m.(*ast.CallExpr)
 		if !ok || len(call.Args) != 1 {
 			return true
@@ -176,6 +176,7 @@ func (c *Ctx) decodeWidthsAgree(rule string, s *Scope) int {
 			fmt.Sprintf("%s decodes %d bytes and is given a %d-byte slice", nm, w, k))
 		return true
 	})
+
 	return n
 }
 
@@ -188,12 +189,13 @@ func ruleWALRecordLayoutAgreement(c *Ctx) {
 	}
 	firstLoop := func(s *Scope) *ast.ForStmt {
 		var l *ast.ForStmt
-		walkAll(s.Body, func(n ast.Node) bool {
+		s.walk(func(n ast.Node) bool {
 			if fs, ok := n.(*ast.ForStmt); ok && l == nil {
 				l = fs
 			}
 			return l == nil
 		})
+
 		return l
 	}
 	sl, pl := firstLoop(ser), firstLoop(par)
@@ -202,12 +204,13 @@ func ruleWALRecordLayoutAgreement(c *Ctx) {
 		return
 	}
 	var cursor types.Object
-	walkAll(par.Body, func(n ast.Node) bool {
+	par.walk(func(n ast.Node) bool {
 		if as, ok := n.(*ast.AssignStmt); ok && as.Tok == token.ADD_ASSIGN && cursor == nil {
 			cursor = identObj(par.Info, as.Lhs[0])
 		}
 		return true
 	})
+
 	if cursor == nil {
 		c.Undecided(rule, par.Name, "cursor", "parser cursor variable not found")
 		return
@@ -218,14 +221,15 @@ func ruleWALRecordLayoutAgreement(c *Ctx) {
 		"serializeTG emits per command "+sseq.String()+"; ParseTGData consumes "+pseq.String()+" (fixed byte runs / variable parts, in order)")
 	// header: tgID + count
 	var hdrSer wseq
-	walkAll(ser.Body, func(n ast.Node) bool {
+	ser.walk(func(n ast.Node) bool {
 		if call, ok := n.(*ast.CallExpr); ok && call.Pos() < sl.Pos() && CalleeName(ser.Info, call) == "utils/io.Serialize" && len(call.Args) == 2 {
 			hdrSer = append(hdrSer, fixedWidth(ser.Pkg.TypesSizes, ser.Info.TypeOf(call.Args[1])))
 		}
 		return true
 	})
+
 	var hdrPar int64 = -1
-	walkAll(par.Body, func(n ast.Node) bool {
+	par.walk(func(n ast.Node) bool {
 		if as, ok := n.(*ast.AssignStmt); ok && as.Tok == token.DEFINE && len(as.Lhs) == 1 && identObj(par.Info, as.Lhs[0]) == cursor {
 			if v, ok := constInt(par.Info, as.Rhs[0]); ok {
 				hdrPar = v
@@ -233,6 +237,7 @@ func ruleWALRecordLayoutAgreement(c *Ctx) {
 		}
 		return true
 	})
+
 	hs := hdrSer.norm()
 	c.Check(len(hs) == 1 && hs[0] == hdrPar, rule, par.Name, "tg-header-width", c.P.Pos(par.Body.Pos()), fmt.Sprintf("TG header: serializer %s bytes, parser starts its cursor at %d", hs.String(), hdrPar))
 	n := c.decodeWidthsAgree(rule, par)
@@ -240,24 +245,26 @@ func ruleWALRecordLayoutAgreement(c *Ctx) {
 	// data shapes
 	if tb, fb := c.S(rule, "(*utils/io.DataShape).toBytes"), c.S(rule, "utils/io.dsFromBytes"); tb != nil && fb != nil {
 		var cur types.Object
-		walkAll(fb.Body, func(n ast.Node) bool {
+		fb.walk(func(n ast.Node) bool {
 			if inc, ok := n.(*ast.IncDecStmt); ok && cur == nil {
 				cur = identObj(fb.Info, inc.X)
 			}
 			return true
 		})
+
 		a, b := serializerSeq(tb, tb.Body).norm(), parserSeq(fb, fb.Body, cur).norm()
 		c.Check(a.String() == b.String() && len(a) == 3, rule, fb.Name, "datashape-field-widths", c.P.Pos(fb.Body.Pos()), "DataShape.toBytes emits "+a.String()+"; dsFromBytes consumes "+b.String())
 		c.decodeWidthsAgree(rule, fb)
 	}
 	if tb, fb := c.S(rule, "utils/io.DSVToBytes"), c.S(rule, "utils/io.DSVFromBytes"); tb != nil && fb != nil {
 		var cur types.Object
-		walkAll(fb.Body, func(n ast.Node) bool {
+		fb.walk(func(n ast.Node) bool {
 			if inc, ok := n.(*ast.IncDecStmt); ok && cur == nil {
 				cur = identObj(fb.Info, inc.X)
 			}
 			return true
 		})
+
 		a, b := serializerSeq(tb, tb.Body).norm(), parserSeq(fb, fb.Body, cur).norm()
 		c.Check(a.String() == b.String() && len(a) == 2, rule, fb.Name, "dsv-field-widths", c.P.Pos(fb.Body.Pos()), "DSVToBytes emits "+a.String()+"; DSVFromBytes consumes "+b.String())
 		c.decodeWidthsAgree(rule, fb)
@@ -272,7 +279,7 @@ func ruleWALRecordLayoutAgreement(c *Ctx) {
 	}
 	arrayLen := func(s *Scope) int64 {
 		var n int64 = -1
-		walkAll(s.Body, func(m ast.Node) bool {
+		s.walk(func(m ast.Node) bool {
 			if vs, ok := m.(*ast.ValueSpec); ok && len(vs.Names) == 1 {
 				if arr, ok := s.Info.TypeOf(vs.Names[0]).(*types.Array); ok {
 					n = arr.Len()
@@ -280,6 +287,7 @@ func ruleWALRecordLayoutAgreement(c *Ctx) {
 			}
 			return true
 		})
+
 		return n
 	}
 	if w, r := c.S(rule, fnWTI), c.S(rule, "(*executor.WALFileType).readTransactionInfo"); w != nil && r != nil {
@@ -287,7 +295,7 @@ func ruleWALRecordLayoutAgreement(c *Ctx) {
 		c.Check(wb == rb && wb == 10, rule, r.Name, "txninfo-record-width", c.P.Pos(r.Body.Pos()), fmt.Sprintf("WriteTransactionInfo serializes %d bytes after the message id; readTransactionInfo reads a [%d]byte buffer", wb, rb))
 		// field positions: id at 0 (8 bytes), destination at 8, status at 9
 		pos := map[string]int64{}
-		walkAll(r.Body, func(m ast.Node) bool {
+		r.walk(func(m ast.Node) bool {
 			if call, ok := m.(*ast.CallExpr); ok && len(call.Args) == 1 {
 				if tv, ok := r.Info.Types[call.Fun]; ok && tv.IsType() {
 					if ix, ok := unparen(call.Args[0]).(*ast.IndexExpr); ok {
@@ -299,6 +307,7 @@ func ruleWALRecordLayoutAgreement(c *Ctx) {
 			}
 			return true
 		})
+
 		c.Check(pos[modPrefix+"executor.DestEnum"] == 8 && pos[modPrefix+"executor.TxnStatusEnum"] == 9, rule, r.Name, "txninfo-field-offsets", c.P.Pos(r.Body.Pos()),
 			fmt.Sprintf("destination read at byte %d, status at byte %d (written as id:8, destination:1, status:1)", pos[modPrefix+"executor.DestEnum"], pos[modPrefix+"executor.TxnStatusEnum"]))
 		// argument order in the writer: tid, did, txnStatus
@@ -334,7 +343,7 @@ func ruleWALRecordLayoutAgreement(c *Ctx) {
 			continue
 		}
 		ok := false
-		walkAll(s.Body, func(m ast.Node) bool {
+		s.walk(func(m ast.Node) bool {
 			if se, isSl := m.(*ast.SliceExpr); isSl {
 				lo, hi := int64(0), int64(-1)
 				if se.Low != nil {
@@ -347,11 +356,12 @@ func ruleWALRecordLayoutAgreement(c *Ctx) {
 			}
 			return true
 		})
+
 		c.Check(ok, r4, s.Name, "slice-bounds", c.P.Pos(s.Body.Pos()), fmt.Sprintf("%s = buffer[%d:%d] (layout offset:8 index:8 payload)", name, want[0], want[1]))
 	}
 	// bufferSize = 8 + 8 + len(Data) in serializeTG
 	okSize := false
-	walkAll(ser.Body, func(m ast.Node) bool {
+	ser.walk(func(m ast.Node) bool {
 		if as, ok := m.(*ast.AssignStmt); ok && len(as.Lhs) == 1 && len(as.Rhs) == 1 {
 			if id, ok := as.Lhs[0].(*ast.Ident); ok && id.Name == "bufferSize" {
 				w := parserTerms(ser, as.Rhs[0])
@@ -360,6 +370,7 @@ func ruleWALRecordLayoutAgreement(c *Ctx) {
 		}
 		return true
 	})
+
 	c.Check(okSize, r4, ser.Name, "buffer-size", c.P.Pos(ser.Body.Pos()), "the per-command primary-write buffer spans offset(8)+index(8)+len(Data)")
 }
 
@@ -406,7 +417,7 @@ func ruleNoLossyNarrowing(c *Ctx) {
 			continue
 		}
 		sizes := s.Pkg.TypesSizes
-		walkAll(s.Body, func(m ast.Node) bool {
+		s.walk(func(m ast.Node) bool {
 			call, ok := m.(*ast.CallExpr)
 			if !ok || len(call.Args) != 1 {
 				return true
@@ -437,7 +448,7 @@ func ruleNoLossyNarrowing(c *Ctx) {
 				c.Hold(rule, s.Name, construct, c.P.Pos(call.Pos()), "listed exception: "+why)
 				return true
 			}
-			// dominated by a bound test on the operand?
+
 			operand := call.Args[0]
 			guard := func(f []Fact) bool {
 				for _, x := range f {
@@ -460,6 +471,7 @@ func ruleNoLossyNarrowing(c *Ctx) {
 			}
 			return true
 		})
+
 	}
 	c.Floor(rule, "WAL serializers", "narrowing conversions of lengths", n, 5)
 }
